@@ -463,7 +463,10 @@ Definition expected (nq : bool) (r : triple * term) : quad :=
 
 (* the graphs of the property: what rdflib accepts when serialising, with
    absolute IRIs; nodes in the positions RDF allows *)
-Definition wf_iri (s : str) : bool := valid_uri s && has_scheme s.
+(* an IRI the W3C grammar accepts: every character is allowed by the IRIREF production (written without UCHAR) and it is
+   absolute.  NOT defined through rdflib's own acceptance test: that rdflib's _is_valid_uri lets every such IRI through
+   (and nothing else) is proved in Proofs.v over the reflected table, in both directions. *)
+Definition wf_iri (s : str) : bool := forallb iri_plain s && has_scheme s.
 Definition wf_node (t : term) : bool :=
   match t with Iri s => wf_iri s | Bn _ => true | Lit _ _ => false end.
 Definition wf_object (t : term) : bool :=
@@ -547,28 +550,57 @@ Definition qmem (q : quad) (l : list quad) : bool := existsb (quad_eqb q) l.
 Definition qincl (a b : list quad) : bool := forallb (fun q => qmem q b) a.
 Definition qset_eqb (a b : list quad) : bool := qincl a b && qincl b a.
 
-(* a row of a well-formed quad is one strictly legal line meaning that quad *)
-Definition row_ok (nq : bool) (r : triple * term) (o : option str) : bool :=
-  negb (wf_row nq r) ||
-  match o with
-  | Some l => match strict_parse nq l with Some q => quad_eqb q (expected nq r) | None => false end
-  | None => false
+(* a row of a well-formed quad is one strictly legal line meaning that quad; and a row with an IRI (in any position,
+   datatype included) that has a character the IRIREF production excludes must be REFUSED, never written *)
+Definition bad_iri (s : str) : bool := negb (forallb iri_plain s).
+Definition term_bad_iri (t : term) : bool :=
+  match t with
+  | Iri s => bad_iri s
+  | Lit _ (LDt d) => bad_iri d
+  | _ => false
   end.
+Definition row_bad_iri (nq : bool) (r : triple * term) : bool :=
+  let '(s, p, o) := fst r in
+  term_bad_iri s || term_bad_iri p || term_bad_iri o || (nq && match snd r with Iri x => bad_iri x | _ => false end).
+Definition row_ok (nq : bool) (r : triple * term) (o : option str) : bool :=
+  (negb (row_bad_iri nq r) || match o with None => true | Some _ => false end) &&
+  (negb (wf_row nq r) ||
+   match o with
+   | Some l => match strict_parse nq l with Some q => quad_eqb q (expected nq r) | None => false end
+   | None => false
+   end).
 Fixpoint rows_ok (nq : bool) (rs : list (triple * term)) (os : list (option str)) : bool :=
   match rs, os with
   | [], [] => true
   | r :: rs', o :: os' => row_ok nq r o && rows_ok nq rs' os'
   | _, _ => false
   end.
-(* the document of a well-formed graph is a strictly legal document meaning that set of quads *)
-Definition doc_ok (nq : bool) (rs : list (triple * term)) (d : option str) : bool :=
-  negb (forallb (wf_row nq) rs) ||
-  match d with
-  | Some t => match strict_doc nq t with
-              | Some qs => qset_eqb qs (map (expected nq) rs)
-              | None => false
-              end
-  | None => false
+(* the document of a well-formed graph is a strictly legal document meaning that set of quads; and in ANY document
+   that was written - also one with rows that are not well-formed, e.g. relative IRIs - every well-formed row stands
+   on a line of its own as a strictly legal statement meaning that row *)
+Fixpoint suffixes_after_nl (l : str) : list str :=
+  match l with
+  | [] => []
+  | c :: r => (if c =? 10 then [r] else []) ++ suffixes_after_nl r
   end.
+Definition line_starts (t : str) : list str := t :: suffixes_after_nl t.
+Definition row_in_doc (nq : bool) (r : triple * term) (t : str) : bool :=
+  existsb (fun s => match p_statement nq s with
+                    | Some (q, rest) => quad_eqb q (expected nq r) && starts_with 10 rest
+                    | None => false
+                    end) (line_starts t).
+Definition doc_ok (nq : bool) (rs : list (triple * term)) (d : option str) : bool :=
+  (negb (forallb (wf_row nq) rs) ||
+   match d with
+   | Some t => match strict_doc nq t with
+               | Some qs => qset_eqb qs (map (expected nq) rs)
+               | None => false
+               end
+   | None => false
+   end)
+  && match d with
+     | Some t => forallb (fun r => negb (wf_row nq r) || row_in_doc nq r t) rs
+     | None => true
+     end.
 Definition spec_ok (c : case) (o : obs) : bool :=
   rows_ok (c_nq c) (c_rows c) (fst o) && doc_ok (c_nq c) (c_rows c) (snd o).
